@@ -268,6 +268,18 @@ func init() {
 		callerSpec{rule: "CALLERS.getUnquoteType", target: "lisp.getUnquoteType", floor: 1, permitted: map[string]string{
 			"lisp.findAndUnquote": "the one walker that decides what in a quasiquote template is an unquote form"}},
 	)
+	callerSpecs = append(callerSpecs,
+		callerSpec{rule: "CALLERS.Package.Put", target: "lisp.Package.Put", method: true, floor: 5, permitted: map[string]string{
+			"lisp.(*LEnv).PutGlobal":     "the one binding store behind set/defun/defmacro/defconst: splits a qualified symbol, refuses keywords, then stores",
+			"lisp.(*LEnv).UsePackage":    "copies the exported bindings of the used package",
+			"lisp.(*LEnv).AddMacros":     "host registration of macros",
+			"lisp.(*LEnv).AddSpecialOps": "host registration of special operators",
+			"lisp.(*LEnv).AddBuiltins":   "host registration of builtins",
+			"lisp.InitializeTypedef":     "defines the typedef type in the language package at start-up"}},
+		callerSpec{rule: "CALLERS.Package.Update", target: "lisp.Package.Update", method: true, floor: 2, permitted: map[string]string{
+			"lisp.(*LEnv).update": "the one store behind set!: lexical scopes first, then the current package",
+			"lisp/x/debugger/dapserver.(*handler).onSetVariable": "the debugger's setVariable request on a package-level variable (host tooling, not reachable from a program)"}},
+	)
 	for _, sp := range callerSpecs {
 		sp := sp
 		if sp.permitted == nil {
